@@ -67,8 +67,17 @@ def gen_case(rng):
         d = rng.choice(list(WIDTH))
         w = WIDTH[d]
         ops, out = [], bytearray()
+        line_pc = len(code) // 2 if seg == "c" else len(eep)      # what the symbol pc reads on this line: where the line starts
         for _ in range(rng.randrange(1, 5)):
             r = rng.random()
+            if 0.93 < r and seg in "ce":
+                v, text = line_pc, rng.choice(["pc", "PC", "Pc", "pc+0", "(pc)"])
+                ops.append(text)
+                if fits(v, w):
+                    out += (v % (256 ** w)).to_bytes(w, "little")
+                else:
+                    ok = False
+                continue
             if r < (0.3 if d == "db" else 0.02):
                 s = rng.choice(STRINGS)
                 ops.append('"%s"' % s)
